@@ -335,7 +335,8 @@ Record world := mkW {
   w_cache : list (option tloc);   (* MCDataSamplingBkgGenMethod._cache_mc *)
   w_ev : list (option tloc);      (* events_list: generated background (+ merged signal) *)
   w_sig : list (option tloc);     (* sig_events_list: generated signal, not merged yet *)
-  w_tdm : list (option tloc) }.   (* TrialDataManager.events *)
+  w_tdm : list (option tloc);     (* TrialDataManager.events *)
+  w_ready : list bool }.          (* TrialDataManager._src_evt_idxs is set (trial initialisation got that far) *)
 
 Definition getroot (l : list (option tloc)) (i : nat) : option tloc :=
   match nth_error l i with Some o => o | None => None end.
@@ -516,19 +517,21 @@ Definition presel_apply (t : tloc) (ps : option sel) : M tloc :=
 (* run a computation on the store of the world, then update roots with its result *)
 Definition on_store {A} (w : world) (m : M A) (k : world -> A -> world) : world * res unit :=
   match m (w_store w) with
-  | (s', Ok a) => let w' := mkW s' (w_exp w) (w_mc w) (w_cache w) (w_ev w) (w_sig w) (w_tdm w) in
+  | (s', Ok a) => let w' := mkW s' (w_exp w) (w_mc w) (w_cache w) (w_ev w) (w_sig w) (w_tdm w) (w_ready w) in
                   (k w' a, Ok tt)
-  | (s', Err e) => (mkW s' (w_exp w) (w_mc w) (w_cache w) (w_ev w) (w_sig w) (w_tdm w), Err e)
+  | (s', Err e) => (mkW s' (w_exp w) (w_mc w) (w_cache w) (w_ev w) (w_sig w) (w_tdm w) (w_ready w), Err e)
   end.
 
 Definition set_ev (w : world) (i : nat) (o : option tloc) : world :=
-  mkW (w_store w) (w_exp w) (w_mc w) (w_cache w) (setroot (w_ev w) i o) (w_sig w) (w_tdm w).
+  mkW (w_store w) (w_exp w) (w_mc w) (w_cache w) (setroot (w_ev w) i o) (w_sig w) (w_tdm w) (w_ready w).
 Definition set_sig (w : world) (i : nat) (o : option tloc) : world :=
-  mkW (w_store w) (w_exp w) (w_mc w) (w_cache w) (w_ev w) (setroot (w_sig w) i o) (w_tdm w).
+  mkW (w_store w) (w_exp w) (w_mc w) (w_cache w) (w_ev w) (setroot (w_sig w) i o) (w_tdm w) (w_ready w).
 Definition set_tdm (w : world) (i : nat) (o : option tloc) : world :=
-  mkW (w_store w) (w_exp w) (w_mc w) (w_cache w) (w_ev w) (w_sig w) (setroot (w_tdm w) i o).
+  mkW (w_store w) (w_exp w) (w_mc w) (w_cache w) (w_ev w) (w_sig w) (setroot (w_tdm w) i o) (w_ready w).
+Definition set_ready (w : world) (i : nat) (b : bool) : world :=
+  mkW (w_store w) (w_exp w) (w_mc w) (w_cache w) (w_ev w) (w_sig w) (w_tdm w) (upd (w_ready w) i b).
 Definition set_cache (w : world) (i : nat) (o : option tloc) : world :=
-  mkW (w_store w) (w_exp w) (w_mc w) (setroot (w_cache w) i o) (w_ev w) (w_sig w) (w_tdm w).
+  mkW (w_store w) (w_exp w) (w_mc w) (setroot (w_cache w) i o) (w_ev w) (w_sig w) (w_tdm w) (w_ready w).
 
 Definition step (o : op) (w : world) : world * res unit :=
   match o with
@@ -596,7 +599,7 @@ Definition step (o : op) (w : world) : world * res unit :=
   | InitSet i =>
       match getroot (w_ev w) i with
       | None => (w, Err TypeError)                           (* events must be a DataFieldRecordArray *)
-      | Some ev => (set_tdm w i (Some ev), Ok tt)
+      | Some ev => (set_ready (set_tdm w i (Some ev)) i false, Ok tt)      (* _src_evt_idxs = None *)
       end
   | InitPre i l =>
       match getroot (w_tdm w) i with
@@ -608,30 +611,35 @@ Definition step (o : op) (w : world) : world * res unit :=
       | None => (w, Err AttributeError)
       | Some t =>
           match es with
-          | ESNone | ESAll => (w, Ok tt)
-          | ESSel sl => on_store w (t_select t sl) (fun w' t' => set_tdm w' i (Some t'))
+          | ESNone => (w, Ok tt)
+          | ESAll => (set_ready w i true, Ok tt)                (* the selection method hands over the index table *)
+          | ESSel sl => on_store w (t_select t sl) (fun w' t' => set_ready (set_tdm w' i (Some t')) i true)
           end
       end
   | InitFinish i srt l =>
       match getroot (w_tdm w) i with
       | None => (w, Err AttributeError)
       | Some t =>
-          on_store w (mdo _ <-- (match srt with
-                                 | None => ret tt
-                                 | Some (f, perm) => t_sort t f perm
-                                 end) ;;
-                      set_fields t l)
-                   (fun w' _ => w')
+          match on_store w (match srt with
+                            | None => ret tt
+                            | Some (f, perm) => t_sort t f perm
+                            end) (fun w' _ => set_ready w' i true)     (* index table built after the sort *)
+          with
+          | (w1, Err e) => (w1, Err e)
+          | (w1, Ok _) => on_store w1 (set_fields t l) (fun w' _ => w')
+          end
       end
   | Evaluate i l =>
       match getroot (w_tdm w) i with
       | None => (w, Err AttributeError)
-      | Some t => on_store w (set_fields t l) (fun w' _ => w')
+      | Some t =>
+          if nth i (w_ready w) false then on_store w (set_fields t l) (fun w' _ => w')
+          else (w, Err TypeError)          (* half initialised trial data: no source-event index table *)
       end
   | UnblindCopy i =>
       match nth_error (w_exp w) i with
       | None => (w, Err IndexError)
-      | Some e => on_store w (t_copy e None) (fun w' t => set_tdm w' i (Some t))
+      | Some e => on_store w (t_copy e None) (fun w' t => set_ready (set_tdm w' i (Some t)) i false)
       end
   | DropEvents i => (set_sig (set_ev w i None) i None, Ok tt)
   | DropSig i => (set_sig w i None, Ok tt)
@@ -725,7 +733,7 @@ Definition init_world (exps mcs : list (list (fid * list Z))) : world :=
   let '(s2, rm) := mapMM build_one mcs s1 in
   let n := length exps in
   mkW s2 (match re with Ok l => l | Err _ => [] end) (match rm with Ok l => l | Err _ => [] end)
-      (repeat None n) (repeat None n) (repeat None n) (repeat None n).
+      (repeat None n) (repeat None n) (repeat None n) (repeat None n) (repeat false n).
 
 (* ---------------------------------------------------------------- a concrete world and history
    (non-vacuity examples of Prop_C07.v, and the witnesses of the two repaired defects) *)
